@@ -307,8 +307,11 @@ def parse_impl(res):
             m = re.match(r"^obs (\S+) (\d) " + _STR + " " + _STR + "$", e)
             vn = json.loads('"%s"' % m.group(3))
             actor, _, sig = vn.rpartition(" ")
-            items.append(("obs", float(m.group(1)), int(m.group(2)), (actor, sig),
-                          parse_impl_val(json.loads('"%s"' % m.group(4)))))
+            raw = json.loads('"%s"' % m.group(4))
+            # an event's value is text, whatever it looks like; array values of computed variables
+            # also travel with the event type
+            val = raw if (int(m.group(2)) == 0 and not (raw.startswith("[") and raw.endswith("]")) and actor) else parse_impl_val(raw)
+            items.append(("obs", float(m.group(1)), int(m.group(2)), (actor, sig), val))
         elif e.startswith("rep "):
             m = re.match(r"^rep (\S+) " + _STR + r" (\d) ", e)
             items.append(("rep", float(m.group(1)), json.loads('"%s"' % m.group(2)), int(m.group(3))))
